@@ -167,3 +167,124 @@ Proof.
     rewrite ba_to_int_to_ba. rewrite N.mod_small by (change (256 ^ N.of_nat 4)%N with 4294967296%N; lia). rewrite Hcl. lia.
   - rewrite map_length. lia.
 Qed.
+
+(* ------------------------------------------------------------------ REPORT LUNS: the builder *)
+Definition RLM := "scsi_cdb_report_luns.ReportLuns.marshall_datain".
+Notation PF_rlm := PF_scsi_cdb_report_luns_ReportLuns_marshall_datain.
+Definition T_luns := T_scsi_cdb_report_luns__ReportLuns___datain_bits.
+
+Lemma rlm_lookup : lookup RLM py_program = Some PF_rlm.
+Proof. vm_compute. reflexivity. Qed.
+Lemma luns_table : lookup "scsi_cdb_report_luns.ReportLuns._datain_bits" all_tables = Some T_luns.
+Proof. vm_compute. reflexivity. Qed.
+
+Lemma lxor_0_l_list (b : bytes) : xor_list (repeat 0%N (length b)) b = b.
+Proof. induction b as [|x b IH]; [reflexivity|]. change (length (x :: b)) with (S (length b)). cbn [repeat xor_list]. now rewrite IH, N.lxor_0_l. Qed.
+
+Lemma luns_encode (v : N) : encode_pv [("lun", PInt (Z.of_N v))] T_luns (zeros 8) = Ok (int_to_ba v 8).
+Proof.
+  unfold encode_pv, T_luns, T_scsi_cdb_report_luns__ReportLuns___datain_bits. cbn [lookup String.eqb Ascii.eqb Bool.eqb as_int].
+  destruct (Z.ltb_spec (Z.of_N v) 0); [lia|]. rewrite N2Z.id. unfold encode1. cbn [ctz pos_ctz]. change (nbytes 18446744073709551615) with 8.
+  rewrite zeros_length. cbn [N.to_nat Nat.add Nat.leb]. rewrite N.shiftl_0_r. f_equal.
+Qed.
+
+Definition lun_entry (kv : string * N) : pv := PDict [(fst kv, PInt (Z.of_N (snd kv)))].
+
+Definition rlm_inv (all : list (string * N)) (items : list pv) (ρ : env) : Prop :=
+  exists done rest, all = (done ++ rest)%list /\ items = map lun_entry rest /\
+    lookup "result" ρ = Some (PBytes (zeros 8 ++ concat (map (fun kv => int_to_ba (snd kv) 8) done))%list).
+
+(* the builder: LUN LIST LENGTH (bytes 0..3) = 8 per entry, 4 reserved bytes, then the LUNs in the CALLER'S order (whatever the keys are
+   called — lun0, lun1, ..., lun10: the order of the list decides, not the names) *)
+Theorem reportluns_build_exact : forall (all : list (string * N)) f, 1 <= f ->
+  call_fun all_tables py_program f RLM [PDict [("luns", PList (map lun_entry all))]]
+  = Ok (PBytes (int_to_ba (N.of_nat (8 * length all)) 4 ++ zeros 4 ++ concat (map (fun kv => int_to_ba (snd kv) 8) all))%list).
+Proof.
+  intros all f Hf. destruct f as [|f]; [lia|].
+  unfold call_fun, call_with. rewrite rlm_lookup. cbn [fn_params bind_params PF_rlm].
+  rewrite run_S, exec_if. cbn [eval truthy]. cbn [fn_body PF_rlm].
+  step. cbn [bytearray_eval as_int]. change (Z.ltb 8 0) with false. change (Z.ltb 1048576 8) with false. cbn iota. change (Z.to_nat 8) with 8.
+  rewrite exec_block_cons, exec_if. cbn [eval]. lk. cbn [lookup String.eqb Ascii.eqb Bool.eqb in_eval negb truthy]. rewrite exec_block_nil.
+  rewrite exec_block_cons, exec_for. cbn [eval]. lk. cbn [lookup String.eqb Ascii.eqb Bool.eqb index_eval iter_items].
+  match goal with |- context [for_iter _ ?c ?a "l" ?body _ ?r0] =>
+    destruct (for_consumes all_tables c a "l" body (rlm_inv all)) with (ds := map lun_entry all) (ρ := r0) as (ρ' & Hrun & Hinv) end.
+  - intros d ds ρ (done & rest & Hsplit & Hds & Hres). destruct rest as [|[k v] rest]; [discriminate|]. cbn [map] in Hds. injection Hds as -> ->.
+    step. cbn [bytearray_eval as_int]. change (Z.ltb 8 0) with false. change (Z.ltb 1048576 8) with false. cbn iota. change (Z.to_nat 8) with 8.
+    step. unfold lun_entry at 1. cbn [fst snd map iter_items]. lk. cbn [lookup String.eqb Ascii.eqb Bool.eqb dict_set].
+    rewrite luns_table. unfold with_var. lk. rewrite luns_encode.
+    step. rewrite Hres. cbn [bin_eval as_int]. rewrite exec_block_nil.
+    eexists. split; [reflexivity|]. exists (done ++ [(k, v)])%list, rest. split; [now rewrite <- app_assoc|]. split; [reflexivity|].
+    lk. rewrite map_app, concat_app. change (concat (map (fun kv => int_to_ba (snd kv) 8) [(k, v)])) with (int_to_ba v 8 ++ [])%list.
+    rewrite app_nil_r, <- app_assoc. reflexivity.
+  - exists [], all. repeat split.
+  - rewrite Hrun. destruct Hinv as (done & rest & Hsplit & Hds & Hres). symmetry in Hds. apply map_eq_nil in Hds. subst rest. rewrite app_nil_r in Hsplit. subst done.
+    step. rewrite Hres. cbn [len_eval bin_eval as_int]. unfold with_var. rewrite Hres.
+    assert (Hl : length (zeros 8 ++ concat (map (fun kv : string * N => int_to_ba (snd kv) 8) all))%list = 8 + 8 * length all).
+    { rewrite app_length, zeros_length. f_equal. rewrite (concat_len_const _ 8); [now rewrite map_length|].
+      apply Forall_map. apply Forall_forall. intros x _. apply int_to_ba_length. }
+    rewrite Hl.
+    assert (Hi : int_to_ba_z (Z.of_nat (8 + 8 * length all) - 8) 4 = int_to_ba (N.of_nat (8 * length all)) 4).
+    { unfold int_to_ba_z. destruct (Z.leb_spec 0 (Z.of_nat (8 + 8 * length all) - 8)); [|lia].
+      change (Z.to_nat (Z.min (Z.max 4 0) 4096)) with 4. f_equal. lia. }
+    rewrite Hi.
+    assert (Hs : forall x : bytes, length x = 4 -> store_slice (PBytes (zeros 8 ++ concat (map (fun kv : string * N => int_to_ba (snd kv) 8) all))%list) None (Some (PInt 4)) (PBytes x)
+                 = Ok (PBytes (x ++ zeros 4 ++ concat (map (fun kv : string * N => int_to_ba (snd kv) 8) all))%list)).
+    { intros x Hx. unfold store_slice. cbn [opt_int as_int]. unfold clip. rewrite Hl. change (Z.ltb 4 0) with false. cbn iota.
+      replace (Z.to_nat (Z.min 4 (Z.of_nat (8 + 8 * length all)))) with 4 by lia. change (Nat.max 0 4) with 4. cbn [firstn].
+      change (zeros 8) with (zeros 4 ++ zeros 4)%list. rewrite <- app_assoc.
+      rewrite skipn_app, skipn_all2 by (rewrite zeros_length; lia). rewrite zeros_length, Nat.sub_diag. reflexivity. }
+    rewrite Hs by apply int_to_ba_length.
+    step. lk. reflexivity.
+Qed.
+
+(* ------------------------------------------------------------------ REPORT LUNS: build, then parse *)
+From PS Require Import Proofs.PyTotal.
+
+Fixpoint numbered (i : nat) (vs : list N) : list (string * N) :=
+  match vs with [] => [] | v :: r => ("lun" ++ z_to_string (Z.of_nat i), v) :: numbered (S i) r end.
+
+Lemma numbered_length i vs : length (numbered i vs) = length vs.
+Proof. revert i. induction vs as [|v vs IH]; intros i; [reflexivity|]. cbn [numbered]. change (length (?a :: ?l)) with (S (length l)). now rewrite IH. Qed.
+
+Lemma rl_value_of_encoded v : (v < 2 ^ 64)%N -> rl_value (int_to_ba v 8) = PInt (Z.of_N v).
+Proof.
+  intros Hv. unfold rl_value. change (nbytes 18446744073709551615) with 8. rewrite !N.shiftr_0_r.
+  unfold slice. change (0 + 8 - 0) with 8. change (skipn 0 (int_to_ba v 8)) with (int_to_ba v 8).
+  rewrite firstn_all2 by (rewrite int_to_ba_length; lia). rewrite ba_to_int_to_ba.
+  change (256 ^ N.of_nat 8)%N with (2 ^ 64)%N. rewrite N.mod_small by exact Hv.
+  change 18446744073709551615%N with (N.ones 64). rewrite N.land_ones. now rewrite N.mod_small.
+Qed.
+
+Lemma rl_entries_numbered i vs : Forall (fun v => (v < 2 ^ 64)%N) vs ->
+  rl_entries i (map (fun kv => int_to_ba (snd kv) 8) (numbered i vs)) = map lun_entry (numbered i vs).
+Proof.
+  intros H. revert i. induction H as [|v vs Hv _ IH]; intros i; [reflexivity|].
+  cbn [numbered map rl_entries snd]. rewrite IH. f_equal. unfold rl_entry, lun_entry. cbn [fst snd]. now rewrite rl_value_of_encoded.
+Qed.
+
+(* REPORT LUNS built from lun0 .. lun<n-1> (any number of them, values below 2^64) decodes to exactly those entries, in order *)
+Theorem reportluns_parse_inverts_build : forall (vs : list N) f,
+  Forall (fun v => (v < 2 ^ 64)%N) vs -> (Z.of_nat (length vs) <= 100000000)%Z -> 8 * length vs + 11 <= f ->
+  exists built, call_fun all_tables py_program f RLM [PDict [("luns", PList (map lun_entry (numbered 0 vs)))]] = Ok (PBytes built) /\
+    call_fun all_tables py_program f RL [PBytes built] = Ok (PDict [("luns", PList (map lun_entry (numbered 0 vs)))]).
+Proof.
+  intros vs f Hvs Hsmall Hf.
+  set (all := numbered 0 vs). set (descs := map (fun kv : string * N => int_to_ba (snd kv) 8) all).
+  assert (Hla : length all = length vs) by apply numbered_length.
+  assert (H8 : Forall (fun d => length d = 8) descs) by (apply Forall_map, Forall_forall; intros x _; apply int_to_ba_length).
+  assert (Hcl : length (concat descs) = 8 * length vs) by (rewrite (concat_len_const _ 8 H8); unfold descs; now rewrite map_length, Hla).
+  eexists. split; [apply reportluns_build_exact; lia|]. fold descs.
+  set (built := (int_to_ba (N.of_nat (8 * length all)) 4 ++ zeros 4 ++ concat descs)%list).
+  assert (Hbl : length built = 8 + 8 * length vs).
+  { unfold built. rewrite !app_length, int_to_ba_length, zeros_length, Hcl. lia. }
+  rewrite (reportluns_total built f) by lia.
+  assert (Hann : py_slice built (Some 8%Z) (Some (Z.of_N (ba_to_int (py_slice built None (Some 4%Z))) + 8)%Z) = concat descs).
+  { assert (H4 : py_slice built None (Some 4%Z) = int_to_ba (N.of_nat (8 * length all)) 4).
+    { unfold built. apply py_slice_prefix. now rewrite int_to_ba_length. }
+    rewrite H4, ba_to_int_to_ba. rewrite N.mod_small by (change (256 ^ N.of_nat 4)%N with 4294967296%N; lia).
+    unfold built. replace (int_to_ba (N.of_nat (8 * length all)) 4 ++ zeros 4 ++ concat descs)%list
+      with ((int_to_ba (N.of_nat (8 * length all)) 4 ++ zeros 4) ++ concat descs ++ [])%list by (now rewrite app_nil_r, <- app_assoc).
+    apply py_slice_mid; rewrite ?app_length, ?int_to_ba_length, ?zeros_length, ?Hcl; lia. }
+  rewrite Hann. rewrite chunks_concat by (assumption || lia).
+  unfold descs, all. now rewrite rl_entries_numbered.
+Qed.
